@@ -85,6 +85,17 @@ RAW = [
 ]
 
 
+def buried_container_key_inv(rng):
+    ckv = ('m', [(rng.choice([('l', [I(1), I(2)]), ('m', [(S('k'), I(1))]), ('l', [])]), rng.choice([I(3), S('v'), ('l', [I(1)])])), (S('plain'), I(4))])
+    for _ in range(rng.randint(0, 3)):
+        ckv = ('m', [(S('a'), ckv), (S('b'), I(0))]) if rng.random() < 0.7 else ('l', [I(0), ckv])
+    inv = G.Inv()
+    inv.classes[('l0.yml',)] = G.doc([], [], ('m', [(S('ck'), ckv), (S('other'), S('o'))]))
+    inv.nodes[('n.yml',)] = G.doc(['l0'], [], ('m', [(S('emb'), S(rng.choice(['x-${ck}', '[${ck}]${other}', '${ck:a}-', '${ck}'])))]))
+    inv.universe.add('l0')
+    return inv
+
+
 def run(tier, rng, C):
     cases = []
     n = 350 if tier == 'quick' else 15000
@@ -110,6 +121,15 @@ def run(tier, rng, C):
             k0 = rng.choice(V.KEYS)
             layers = [('m', [(kk, vv) for kk, vv in l[1] if kk[1:] != S(k0)[1:]] +
                        [(S(k0), rng.choice([S('hello'), S('bye'), I(3), N, B(True), S('${kx}'), M(('text', S('t')))]))]) for l in layers]
+        extra_looks = []
+        if i % 4 == 1:
+            # a mapping with a container key, buried 0-3 levels deep in mappings / lists, then embedded in text
+            # (its JSON text form does not exist: an error, whatever the depth)
+            ckv = ('m', [(rng.choice([('l', [I(1), I(2)]), ('m', [(S('k'), I(1))])]), I(3)), (S('plain'), I(4))])
+            for _ in range(rng.randint(0, 3)):
+                ckv = ('m', [(S('a'), ckv), (S('b'), I(0))]) if rng.random() < 0.6 else ('l', [I(0), ckv])
+            layers = layers[:-1] + [('m', layers[-1][1] + [(S('ck'), ckv)])]
+            extra_looks = [(S('emb'), S(rng.choice(['x-${ck}', '${ck}', '[${ck}]${ck}'])))]
         inv = G.Inv()
         names = []
         for j, l in enumerate(layers):
@@ -119,9 +139,12 @@ def run(tier, rng, C):
         keys = sorted({k[1].lstrip('~=') for l in layers for k, _ in l[1] if k[0] == 's' and k[1].lstrip('~=')})
         looks = [(S('look%d' % q), S(rng.choice(['${%s:%s}', '<${%s:%s}>', '${%s:%s:a}']) % (rng.choice(keys), rng.choice(V.KEYS + ['text']))))
                  for q in range(rng.randint(1, 4))] if keys else []
-        inv.nodes[('n.yml',)] = G.doc(names, [], ('m', looks))
+        inv.nodes[('n.yml',)] = G.doc(names, [], ('m', looks + extra_looks))
         add(inv, G.op_node('n') if i % 4 else 'all')
-    # (b2) include loops whose classes are all entered through reference-bearing entries
+    # (b1b) a mapping with a container key buried 0-3 levels deep in otherwise plain data, embedded in text or used
+    # as a whole value: its JSON text form does not exist -- an error at every depth, never a crash
+    for i in range(n // 8):
+        add(buried_container_key_inv(rng), G.op_node('n') if i % 3 else 'all')
     for i in range(n // 6):
         inv = G.Inv()
         k = rng.randint(1, 4)
